@@ -28,8 +28,15 @@ def replay_kind(out, kind, jumpi):
     if kind in BAD_JUMP:
         judge = lambda d: (not d.get("permissive_ok", True)) or (d.get("strict_ok", False) and kind != "NoConcreteJumpDestination")
     else:
-        kind = "GasLimitExceeded" if kind == "GasLimitExceeded" else "StackDepthExceeded"
         judge = lambda d: d.get("permissive_ok", False) or d.get("strict_ok", False)
+        if kind == "GasLimitExceeded":
+            for variant_ in (0, 1):
+                c0, r0 = native.scenario(out, "error_kind", {"kind": kind, "jumpi": variant_}, judge=judge)
+                if c0:
+                    return c0, r0
+            return False, r0
+        if kind != "StackUnderflowAtJump":
+            kind = "StackDepthExceeded"
     c1, r1 = native.scenario(out, "error_kind", {"kind": kind, "jumpi": 1 if jumpi else 0}, judge=judge)
     if c1:
         return c1, r1
@@ -40,6 +47,18 @@ def replay_kind(out, kind, jumpi):
             return c2, r2
         r1 = {"error_kind": r1, "falls_through": r2}
     return False, r1
+
+
+def pop_failure_propagates(r, ctx):
+    """paths on which a stack pop failed (no jump validation happened): the result is Err carrying the pop's own error"""
+    failed = [e for e in ctx.events if e[0] == "pop-failed"]
+    if not failed:
+        return None                      # e.g. no current thread: covered by E3
+    if not (isinstance(r, Agg) and r.variant == "Err"):
+        return z3.BoolVal(False)
+    pl = r.fields[0].fields.get(1) if isinstance(r.fields[0], Agg) else None
+    name = getattr(pl, "name", None)
+    return z3.BoolVal(isinstance(name, str) and name.startswith("pop_err"))
 
 
 def errors_vec(ctx, cell):
@@ -265,7 +284,10 @@ def e2(out, eng, pr):
 
     def post(p):
         r, cell, ctx = p.ret
-        if any(e[0] == "valid-target" for e in ctx.events) or not any(e[0] == "validate" for e in ctx.events):
+        if not any(e[0] == "validate" for e in ctx.events):
+            # an operand could not be popped: that error, unchanged, is the instruction's result
+            return pop_failure_propagates(r, ctx)
+        if any(e[0] == "valid-target" for e in ctx.events):
             return None
         # validation failed with payload vj_err
         stores = [e for e in ctx.events if e[0] == "store_error"]
@@ -297,6 +319,8 @@ def e2(out, eng, pr):
                 pl = x.fields.get(1)
             if isinstance(pl, Agg) and pl.variant:
                 kind = pl.variant
+        if any(e[0] == "pop-failed" for e in p.ctx.events) and not any(e[0] == "validate" for e in p.ctx.events):
+            return replay_kind(out, "StackUnderflowAtJump", jumpi=True)
         return replay_kind(out, kind or "NonExistentJumpTarget", jumpi=True)
     verdict(out, pr, "E2.jumpi_bad_target", paths, post, pre=inv, replay=replay, key="permissive-jumpi-bad-target-is-reported",
             what="JUMPI with an invalid / non-existent / unresolvable target: strict mode records the error, permissive mode records nothing, "
@@ -319,7 +343,9 @@ def e2(out, eng, pr):
 
     def post_j(p):
         r, cell, ctx = p.ret
-        if any(e[0] == "valid-target" for e in ctx.events) or not any(e[0] == "validate" for e in ctx.events):
+        if not any(e[0] == "validate" for e in ctx.events):
+            return pop_failure_propagates(r, ctx)
+        if any(e[0] == "valid-target" for e in ctx.events):
             return None
         if variant(r) == "Err":
             pl = r.fields[0].fields.get(1)
@@ -327,5 +353,9 @@ def e2(out, eng, pr):
             return z3.BoolVal(isinstance(pl, Agg) and pl.variant != "NoConcreteJumpDestination")
         killed = View(ctx).get(cell, "VM", "current_thread_killed").e
         return z3.And(killed, z3.BoolVal(not any(e[0] == "store_error" for e in ctx.events)))
-    verdict(out, pr, "E2.jump_bad_target", paths, post_j, pre=inv,
-            what="JUMP with an unresolvable target ends the path silently; other validation errors are returned to VM::execute")
+    def replay_j(p, model):
+        if any(e[0] == "pop-failed" for e in p.ctx.events) and not any(e[0] == "validate" for e in p.ctx.events):
+            return replay_kind(out, "StackUnderflowAtJump", jumpi=False)
+        return replay_kind(out, "NonExistentJumpTarget", jumpi=False)
+    verdict(out, pr, "E2.jump_bad_target", paths, post_j, pre=inv, replay=replay_j, key="jump-error-misclassified",
+            what="JUMP with an unresolvable target ends the path silently; other validation errors and stack errors are returned unchanged to VM::execute")
